@@ -64,16 +64,17 @@ type exchange struct {
 }
 
 type obs struct {
-	SeenAE  string   `json:"seen_accept_encoding"`
-	CE      []string `json:"content_encoding"`
-	CLH     []string `json:"content_length_hdr"`
-	CL      int64    `json:"content_length"`
-	Unc     bool     `json:"uncompressed"`
-	Body    []byte   `json:"-"`
-	BodyLen int      `json:"body_len"`
-	Err     string   `json:"read_error"` // "" = clean EOF
-	Sticky  bool     `json:"sticky"`
-	Fatal   string   `json:"fatal"` // round trip error / panic / nil body / hang
+	SeenAE     string   `json:"seen_accept_encoding"`
+	CE         []string `json:"content_encoding"`
+	CLH        []string `json:"content_length_hdr"`
+	CL         int64    `json:"content_length"`
+	Unc        bool     `json:"uncompressed"`
+	Body       []byte   `json:"-"`
+	BodyLen    int      `json:"body_len"`
+	Err        string   `json:"read_error"` // "" = clean EOF
+	Sticky     bool     `json:"sticky"`
+	StickyWhat string   `json:"sticky_what,omitempty"`
+	Fatal      string   `json:"fatal"` // round trip error / panic / nil body / hang
 }
 
 type world struct {
@@ -143,7 +144,7 @@ func (w *world) do(x exchange) obs {
 	}()
 	select {
 	case o := <-ch:
-		if os.Getenv("VERIF_DEBUG") != "" && (o.Fatal != "" ) {
+		if os.Getenv("VERIF_DEBUG") != "" && (o.Fatal != "") {
 			fmt.Fprintf(os.Stderr, "x%s %s %s %s ce=%q: %s\n", xid, x.Stack, x.Cfg.name(), x.Req.name(), x.S.CE, o.Fatal)
 		}
 		w.o.mu.Lock()
@@ -156,6 +157,8 @@ func (w *world) do(x exchange) obs {
 		return obs{Fatal: "hang: no result within the watchdog limit"}
 	}
 }
+
+func timeAfter(d time.Duration) <-chan time.Time { return time.After(d) }
 
 func (w *world) exchange(x exchange, xid string) (o obs) {
 	cl := w.client(x.Stack, x.Cfg)
@@ -210,11 +213,14 @@ func (w *world) exchange(x exchange, xid string) (o obs) {
 	if rerr != io.EOF {
 		o.Err = rerr.Error()
 	}
+	// sticky: after the terminal status every further read returns no data and a status of the same
+	// kind (io.EOF stays io.EOF, an error stays an error - not a clean io.EOF after a decode error)
 	o.Sticky = true
 	for k := 0; k < 2; k++ {
 		n, err := resp.Body.Read(scratch[:1])
-		if n != 0 || err == nil {
+		if n != 0 || err == nil || (err == io.EOF) != (rerr == io.EOF) {
 			o.Sticky = false
+			o.StickyWhat = fmt.Sprintf("after %v a further read returned %d bytes, %v", rerr, n, err)
 		}
 	}
 	return
@@ -254,10 +260,8 @@ func verdict(x exchange, o obs) (kind, what string) {
 	if o.SeenAE != wantAE {
 		return "accept-encoding", fmt.Sprintf("origin saw Accept-Encoding %q, want %q", o.SeenAE, wantAE)
 	}
-	ce := ""
-	if len(s.CE) > 0 {
-		ce = s.CE[0]
-	}
+	// several Content-Encoding lines are one list (RFC 9110 5.3): the field value is the lines joined
+	ce := strings.Join(s.CE, ", ")
 	must := !head && ((transportAsked && strings.EqualFold(ce, "gzip")) || (x.Cfg.Auto && supportedExact(ce) && x.Req.Range == ""))
 	// recorded interpretations: under AutoDecompression a mixed-case token or a Range request may
 	// either be decoded (correctly) or left untouched
@@ -278,7 +282,7 @@ func verdict(x exchange, o obs) (kind, what string) {
 		servedBody = nil
 	}
 	if !o.Sticky {
-		return "sticky", "a read after the terminal error returned data or a nil error"
+		return "sticky", "a read after the terminal status returned data, a nil error, or a status of another kind: " + o.StickyWhat
 	}
 	untouched := func() string {
 		switch {
